@@ -86,85 +86,129 @@ pub fn sigmoid64(x: f64) -> f64 {
     }
 }
 
-/// Dual number: value, derivative, and derivative evaluated on absolute values.
+/// Dual number: value `v`, exact derivative `d`, the derivative evaluated on absolute values
+/// `m` (magnitude of the summed terms), plus running first-order bounds on the error that a
+/// correct single-precision evaluation may have in the value (`e`) and in the derivative (`de`,
+/// which includes the effect of the forward rounding errors on the derivative factors).
 #[derive(Clone, Copy, Debug)]
 pub struct D {
     pub v: f64,
     pub d: f64,
     pub m: f64,
+    pub e: f64,
+    pub de: f64,
 }
+
+const T45: f64 = 1.5e-45;
 
 impl D {
     pub fn var(v: f64) -> D {
-        D { v, d: 1.0, m: 1.0 }
+        D { v, d: 1.0, m: 1.0, e: 0.0, de: 0.0 }
     }
-    fn un(self, v: f64, dv: f64) -> D {
+    /// Unary map with value `v`, first derivative `f1`, a bound `f2` on |f''| near the argument,
+    /// `rv` / `r1` = absolute rounding error of a correct f32 evaluation of f / f'.
+    fn un(self, v: f64, f1: f64, f2: f64, rv: f64, r1: f64) -> D {
         D {
             v,
-            d: dv * self.d,
-            m: dv.abs() * self.m,
+            d: f1 * self.d,
+            m: f1.abs() * self.m,
+            e: f1.abs() * self.e + f2 * self.e * self.e + rv + T45,
+            de: f1.abs() * self.de + self.d.abs() * (f2 * self.e + r1) + EPS32 * (f1 * self.d).abs() + T45 * (self.d != 0.0) as u8 as f64,
         }
     }
 }
 
 impl Sc for D {
     fn c(v: f64) -> D {
-        D { v, d: 0.0, m: 0.0 }
+        D { v, d: 0.0, m: 0.0, e: 0.0, de: 0.0 }
     }
     fn v(&self) -> f64 {
         self.v
     }
     fn add(self, o: D) -> D {
+        let (v, d) = (self.v + o.v, self.d + o.d);
         D {
-            v: self.v + o.v,
-            d: self.d + o.d,
+            v,
+            d,
             m: self.m + o.m,
+            e: self.e + o.e + EPS32 * v.abs() + T45,
+            de: self.de + o.de + EPS32 * d.abs(),
         }
     }
     fn sub(self, o: D) -> D {
+        let (v, d) = (self.v - o.v, self.d - o.d);
         D {
-            v: self.v - o.v,
-            d: self.d - o.d,
+            v,
+            d,
             m: self.m + o.m,
+            e: self.e + o.e + EPS32 * v.abs() + T45,
+            de: self.de + o.de + EPS32 * d.abs(),
         }
     }
     fn mul(self, o: D) -> D {
+        let v = self.v * o.v;
+        let (t1, t2) = (self.v * o.d, o.v * self.d);
         D {
-            v: self.v * o.v,
-            d: self.v * o.d + o.v * self.d,
+            v,
+            d: t1 + t2,
             m: self.v.abs() * o.m + o.v.abs() * self.m,
+            e: self.v.abs() * o.e + o.v.abs() * self.e + self.e * o.e + EPS32 * v.abs() + T45,
+            de: self.v.abs() * o.de + o.d.abs() * self.e + o.v.abs() * self.de + self.d.abs() * o.e + self.e * o.de + o.e * self.de + 2.0 * EPS32 * (t1.abs() + t2.abs()),
         }
     }
     fn div(self, o: D) -> D {
-        D {
-            v: self.v / o.v,
-            d: (self.d * o.v - self.v * o.d) / (o.v * o.v),
-            m: self.m / o.v.abs() + self.v.abs() * o.m / (o.v * o.v),
-        }
+        // a * (1/b)
+        let b = o.v;
+        let den = (b.abs() - o.e).max(1e-300);
+        let r = 1.0 / b;
+        let dr = -o.d / (b * b);
+        let recip = D {
+            v: r,
+            d: dr,
+            m: o.m / (b * b),
+            e: o.e / (b.abs() * den) + EPS32 * r.abs(),
+            de: o.de / (den * den) + 2.0 * o.d.abs() * o.e / (den * den * den) + EPS32 * dr.abs(),
+        };
+        self.mul(recip)
     }
     fn pl(self, n: f64, p: f64) -> D {
         let s = if self.v > 0.0 { p } else { n };
-        self.un(s * self.v, s)
+        let lip = n.abs().max(p.abs());
+        // if the rounding error could move the argument across the kink, the slope is uncertain
+        let flip = if self.e >= self.v.abs() { (p - n).abs() * self.d.abs() } else { 0.0 };
+        D {
+            v: s * self.v,
+            d: s * self.d,
+            m: s.abs() * self.m,
+            e: lip * self.e + EPS32 * (s * self.v).abs() + T45,
+            de: lip * self.de + flip + EPS32 * (s * self.d).abs(),
+        }
     }
     fn sigmoid(self) -> D {
         let s = sigmoid64(self.v);
-        self.un(s, s * (1.0 - s))
+        // y(1-y) in f32: absolute error of a few eps; |f''| <= 0.0963
+        self.un(s, s * (1.0 - s), 0.1, 8.0 * EPS32 * s + 4.0 * EPS32 * s * s, 6.0 * EPS32)
     }
     fn tanh(self) -> D {
         let t = self.v.tanh();
         let c = self.v.cosh();
-        self.un(t, 1.0 / (c * c))
+        let f1 = 1.0 / (c * c);
+        // |f''| = 2|t|(1-t^2) <= 0.77 globally, evaluated locally with slack
+        let f2 = (2.0 * t.abs() * f1).max(f1) + 0.05;
+        self.un(t, f1, f2.min(0.8), 8.0 * EPS32 * t.abs(), 12.0 * EPS32 * f1)
     }
     fn exp(self) -> D {
         let e = self.v.exp();
-        self.un(e, e)
+        self.un(e, e, e * (self.e.min(1.0)).exp(), 8.0 * EPS32 * e, 8.0 * EPS32 * e)
     }
     fn ln(self) -> D {
-        self.un(self.v.ln(), 1.0 / self.v)
+        let a = (self.v.abs() - self.e).max(1e-300);
+        self.un(self.v.ln(), 1.0 / self.v, 1.0 / (a * a), 8.0 * EPS32 * self.v.ln().abs() + 4.0 * EPS32, 4.0 * EPS32 / a)
     }
     fn sqrt(self) -> D {
         let s = self.v.sqrt();
-        self.un(s, 0.5 / s)
+        let a = (self.v.abs() - self.e).max(1e-300);
+        self.un(s, 0.5 / s, 0.25 / (a * a.sqrt()), EPS32 * s, 2.0 * EPS32 * 0.5 / s)
     }
 }
 
